@@ -10,18 +10,22 @@ DIMS = ('targets', 'tasks', 'algs', 'svs')
 ROWKEY = {'targets': 'target', 'tasks': 'task', 'algs': 'alg', 'svs': 'sv'}
 
 
-def draw_runexpr(w, tag, allow_latest=True):
+def draw_runexpr(w, tag, allow_latest=True, runs=()):
     """-> (string form, list form or None, kinds of terms)"""
     import dawgie.db.basis as basis
 
     ch = w.ch
     hi = 14
+    runs = sorted(set(runs))
     n = 1 + ch.choose(tag + '.nterms', 3)
     terms, items, kinds = [], [], set()
     for _ in range(n):
         k = ch.choose(tag + '.term', 6 if allow_latest else 5)
         a = ch.choose(tag + '.a', hi)
         b = ch.choose(tag + '.b', hi)
+        if runs and ch.flip(tag + '.near', 1, 2):
+            a = runs[a % len(runs)]
+            b = a + b % 4
         if k == 0:
             terms.append(str(a))
             items.append(a)
@@ -118,7 +122,7 @@ def search_op(w, tag, kinds=('find', 'facet', 'fe')):
     expr = items = None
     ekinds = set()
     if ch.flip(tag + '.runids', 2, 3):
-        expr, items, ekinds = draw_runexpr(w, tag)
+        expr, items, ekinds = draw_runexpr(w, tag, runs=[r['run'] for r in rows])
         check_scrub(w, expr, items)
     cons = draw_constraints(w, tag, rows)
     if expr is not None and 'latest' in ekinds:
